@@ -38,7 +38,7 @@ def run(m, rep, tier):
         check_swap(m, f, d2)
 
     d3 = rep.rule('D3', 'concat splices only distinct lists, adds the size once, re-initialises the source', floor=1)
-    f = m.pfn('cstl_dlist_concat')
+    f = m.focus('dlist').fn('cstl_dlist_concat')       # private splice helpers inlined
     if f is None:
         d3.undecided('cstl_dlist_concat', 'not in the model')
     else:
@@ -229,13 +229,19 @@ def run(m, rep, tier):
     # ---- D8: link primitive direction vs. anchors ----------------------------------------
     d8 = rep.rule('D8', 'push_front / push_back / insert pass the anchor that matches the direction in which the link primitive links', floor=3)
     listrules.check_insert_anchors(m, d8, 'dlist', '__cstl_dlist_insert', 'cstl_dlist', 'cstl_dlist_node',
-                                   {'cstl_dlist_push_front': 'front', 'cstl_dlist_push_back': 'back', 'cstl_dlist_insert': ('after', '$1')})
+                                   {'cstl_dlist_push_front': 'front', 'cstl_dlist_push_back': 'back', 'cstl_dlist_insert': ('after', '$1')},
+                                   null_fns={n_ for n_, d_ in decls.items() if any(rv.split()[:1] == ['NULL'] for rv in d_.retvals)})
 
     # ---- D7: swap completeness ------------------------------------------------------------
     from .util import check_swap_complete
     _sw = rep.rule('D7', 'swap exchanges every member of the two lists before re-anchoring', floor=1)
     for _n in ('cstl_dlist_swap',):
         check_swap_complete(m, _n, _sw)
+
+    # ---- D12: the NDEBUG build does what the assertion build does ---------------------------------
+    from .util import check_assert_effects
+    _ae = rep.rule('D12', 'every store / effectful call made with assertions enabled is also made by the NDEBUG build (no work inside assert())', floor=1)
+    check_assert_effects(m, _ae, ('dlist.c', 'dlist.h'))
 
 
 def check_swap(m, f, rule):
